@@ -111,10 +111,10 @@ def account_design(chk: Check, prop: str, runs: list[tuple[str, core.TlcResult, 
         chk.cov["design_tag_assignments"] = len(r.printed.get("DESIGN", []))
         have = {(x["clause"], json.dumps(x["locus"], sort_keys=True)) for x in rows}
         if prop == "C13":
-            want = [("C13.mock_class_missing", {"tagpos": 2}), ("C13.apiclient_property_missing", {"side": "mock", "tagpos": 2}), ("C13.method_missing", {"side": "mock", "tagpos": 2})]
+            want = [("C13.mock_class_missing", {"tagpos": 2, "variants": False}), ("C13.apiclient_property_missing", {"side": "mock", "tagpos": 2, "variants": False}), ("C13.method_missing", {"side": "mock", "tagpos": 2, "variants": False})]
             chk.require(any(x["clause"] == "C01.mock_client_syntax" and x["locus"]["clients"] == 1 and x["locus"]["args"] == 3 for x in rows), "design run did not exhibit: spelling variants fold to one client but three mock arguments")
         else:
-            want = [("C07.client_unreachable", {"shadowed_by": "request"})]
+            want = [("C07.client_unreachable", {"shadowed_by": "request", "class_emitted": True})]
         for c, l in want:
             chk.require((c, json.dumps(l, sort_keys=True)) in have, f"design run did not exhibit the counterexample {c} {l}")
 
